@@ -74,6 +74,8 @@ func v1Pair(r *gen.RNG, m V1Set, prof gen.Profile, i int) (any, any) {
 		return keyedMemberPair(r, prof, m.Keys)
 	case len(m.Keys) > 0:
 		return gen.KeyedPair(r, prof, m.Keys)
+	case i%7 == 6 && len(m.Keys) == 0 && !m.HasEps:
+		return gen.DeepChainPair(r, prof, m.Merge)
 	case i%5 == 4:
 		o := OptSet{Reading: m.Reading, Keys: m.Keys}
 		a, b, _ := eqPair(r, o, prof)
